@@ -481,3 +481,115 @@ def judge_c10(mb, run, result):
                     if pf is None or pf['result'] != 'ok' or pf.get('same') != '1':
                         out.append(Violation('final-construct:registered-client-port-unreachable', str(pf)))
     return out
+
+
+# ------------------------------------------------------------------------------------------------ C04
+def mc_deliveries(h: History, c):
+    """Outer handler executions that are deliveries of the inner out-event call c (synchronous, same task)."""
+    ret_seq = c['ret']['seq'] if c['ret'] else 10 ** 12
+    return [hd for hd in h.handlers if hd['side'] == 'o' and hd['ev'] == c['ev'] and hd['task'] == c['task']
+            and c['seq'] < hd['seq'] < ret_seq and hd['in'] == c['in']]
+
+
+def judge_c04(mb, run, result):
+    """Reference model of the statement: S = set of clients whose most recent completed claim was answered with the
+    granting reply and who have not released since.  An out-event raised while no claim/release call is in flight
+    must reach exactly one member of S (nobody when S is empty)."""
+    v = basic(result)
+    if v:
+        return v
+    h = History(mb, run, result)
+    ctor, fc = h.first('shell_ctor'), h.first('fc')
+    if ctor is None or ctor['result'] != 'ok' or fc is None or fc['result'] != 'ok':
+        return [Violation('construction:valid-world-rejected', f'{ctor} {fc}')]
+    mc = mb.mc
+    out = []
+    calls = sorted(h.calls.values(), key=lambda c: c['seq'])
+    ctl = [c for c in calls if c['side'] == 'o' and c['ev'] in (mc['claim'], mc['release'])]
+    # timeline of the literal predicate
+    events_tl = []
+    for c in ctl:
+        end = c['ret']['seq'] if c['ret'] else 10 ** 12
+        events_tl.append((c['seq'], end, c))
+
+    def state_at(seq):
+        """Two readings of the statement are both accepted (the check must not demand more than either):
+        (A) a single holder: the client of the most recent granted claim, until that client releases;
+        (B) the set of clients that were granted a claim and have not released since.
+        They differ only after the component granted a second client without a release by the first one (possible
+        after a release by a non-holder).  Returns None while a claim/release call is in flight."""
+        granted = {}
+        holder = None
+        for start, end, c in events_tl:
+            if end >= seq and start < seq:
+                return None
+            if end < seq:
+                x = c['cl']
+                if c['ev'] == mc['claim']:
+                    # "claims answered otherwise never change who is selected": only granting replies count
+                    if c['ret']['reply'] == mc['grant']:
+                        granted[x] = True
+                        holder = x
+                else:
+                    granted[x] = False
+                    if holder == x:
+                        holder = None
+        acceptable = {x for x, g in granted.items() if g}
+        acceptable.add(holder)   # None = nobody
+        if not any(granted.values()):
+            acceptable.add(None)
+        return acceptable
+
+    rogue_seen = False
+    for c in calls:
+        if not (c['side'] == 'i' and c['ev'] in mc['out_events']):
+            continue
+        e = mb.events[c['ev']]
+        name = f"{mb.ports[e['port']]['name']}.{e['name']}"
+        dels = mc_deliveries(h, c)
+        recipients = [d['cl'] for d in dels]
+        if len(recipients) > 1:
+            out.append(Violation('multiclient:out-event-delivered-more-than-once', f'{name} -> clients {recipients}', c['seq']))
+            continue
+        s = state_at(c['seq'])
+        if s is None:
+            continue
+        got = recipients[0] if recipients else None
+        if got in s:
+            continue
+        holders = sorted(x for x in s if x is not None)
+        if got is None:
+            out.append(Violation('multiclient:out-event-lost', f'{name}: holder(s) {holders} received nothing', c['seq']))
+        elif not holders:
+            out.append(Violation('multiclient:out-event-delivered-without-holder', f'{name} -> client {got}', c['seq']))
+        else:
+            out.append(Violation('multiclient:out-event-to-wrong-client', f'{name} -> client {got}, holder(s) {holders}', c['seq']))
+    # every client in-event reaches the component through the dispatcher, reply returned to that client
+    vs, match_c = routing(h, lambda c: c['side'] == 'i' and c['ev'] in mc['out_events'])
+    out += [x for x in vs if not x.cls.startswith('routing:phantom')]
+    sp = h.shell_pump()
+    for i, c in enumerate(calls):
+        if c['side'] == 'o' and mb.events[c['ev']]['port'] == mc['port'] and match_c[i] >= 0:
+            hd = h.handlers[match_c[i]]
+            if hd['disp'] != sp:
+                out.append(Violation('multiclient:in-event-not-through-dispatcher', mb.events[c['ev']]['name'], c['seq']))
+    return _dedup(out)
+
+
+def c04_site(mb, run, result):
+    """Classify what the failing history contains (for matching known findings by history class, never by seed)."""
+    h = History(mb, run, result)
+    mc = mb.mc
+    holder = None
+    rogue = False
+    for c in sorted(h.calls.values(), key=lambda c: c['seq']):
+        if c['side'] != 'o' or not c['ret']:
+            continue
+        if c['ev'] == mc['claim'] and c['ret']['reply'] == mc['grant']:
+            holder = c['cl']
+        elif c['ev'] == mc['release']:
+            if holder is not None and c['cl'] != holder:
+                rogue = True
+            elif c['cl'] == holder:
+                holder = None
+    return 'release-by-non-holder' if rogue else 'no-rogue-release'
